@@ -217,6 +217,23 @@ PROPS = {
         "assumptions": ["tokio Mutex / RwLock semantics; a listener callback writes one short reply (fits the socket buffer) while the connection's lock is held"],
         "timeout": 600,
     },
+    "C19": {
+        "props_module": "Redproxy.Props.C19",
+        "mode": "c19",
+        "needs_plain": True,
+        "rule": "real direct / http / socks connectors in process against upstreams the harness stops (connections reset) and restarts on the same "
+                "port: healthy, two attempts during the outage, first attempt after it (2 rounds, 3 thorough), each successful attempt must really echo "
+                "a byte; a tunnel open across the outage (must end with an error and close the client side) next to a tunnel through another "
+                "upstream (must keep working); the real QuicConnector in process against the un-hooked binary as upstream proxy (quic listener -> "
+                "direct, test PKI), killed with SIGKILL and restarted on the same port: recovery within two attempts, none of them hanging "
+                "(thorough: also an attempt during the outage, two outages); non-trivial = every case; distinct = case lines",
+        "nontrivial": lambda c, i: True,
+        "trusted_base": ["connection-cache model Redproxy/Model/QuicCache.lean tied to connectors/quic.rs by correspondence through a real kill / restart "
+                         "of the upstream process; quinn's loss detection is environment"],
+        "assumptions": ["a SIGKILLed upstream leaves the cached QUIC connection dead without the connector's endpoint noticing (observed)",
+                        "the CONNECT exchange bound of the repaired code is 10 s; the harness waits 13 s before it calls an attempt hung"],
+        "timeout": 300,
+    },
     "C08": {
         "props_module": "Redproxy.Props.C08",
         "mode": "c08",
